@@ -64,6 +64,9 @@ func genSqlwScenario(r *Rng, names bool) sqlwScenario {
 				d[i] = nil
 			}
 		}
+		if k == kFloat && n > 0 && r.Chance(15) {
+			d[r.Intn(n)] = Pick(r, []any{math.NaN(), math.Inf(1), math.Copysign(0, -1), float32(math.NaN())})
+		}
 		if k == kInt && n > 0 && r.Chance(15) {
 			d[r.Intn(n)] = Pick(r, []any{int64(9007199254740993), uint64(18446744073709551615) >> 1, int64(-9007199254740995), int(1234567890123456789)})
 		}
